@@ -89,5 +89,49 @@ def c13_queries(tier):
     return qs
 
 
+def gen_ba(stl, which=0):
+    def g(run_dir, q):
+        srcs = [os.path.join(vlib.VERIF, "harness/C20/ba_wrap.cpp")] + ([] if stl else ["src/cplusplus/ascon-byte-array.cpp"])
+        out, adp = irgen.cpp_unit(run_dir, "ba-stl" if stl else "ba-nostl", srcs, extra_flags=[] if stl else ["-DASCON_NO_STL"], null_gep=True)
+        return adp if which else out
+    return g
+
+
+def ba_query(name, defs, shape, stl=False, unwind=12, timeout=900, cost=10):
+    return Query(name, "harness/C20/ba.c", repo_srcs=["src/core/ascon-hex.c"], extra_srcs=["harness/common/ir_env.c"], backend="c64",
+                 with_backend=False, with_spec=False, gen_srcs=[gen_ba(stl), gen_ba(stl, 1)], defs=defs, shape=shape, unwind=unwind, timeout=timeout, mem_gb=12, cost=cost)
+
+
+BA_OPS = ["construct(n,v)", "operator=", "copy-construct", "resize", "reserve", "push_back", "pop_back", "clear", "operator[] write", "data() write",
+          "a[i] = a[j]", "swap through two operator[] references"]
+
+
+def canon_pat(a, b, c):
+    ren, out = {0: 0}, []
+    for x in (a, b, c):
+        if x not in ren:
+            ren[x] = len(ren)
+        out.append(ren[x])
+    return out[0] * 100 + out[1] * 10 + out[2]
+
+
 def c20_queries(tier):
-    return []
+    qs = []
+    for n in range(0, 7 if tier == "quick" else 9):
+        for stl in (0, 1):
+            qs.append(ba_query("cpp-hex:%s:in%d" % ("stl" if stl else "nostl", n), {"KIND": 2, "INLEN": n},
+                               {"chars": n, "configuration": "std::vector" if stl else "ASCON_NO_STL"}, stl=bool(stl), unwind=24))
+    for sh in (0, 1):
+        qs.append(ba_query("byte_array:index-move:%s" % ("shared" if sh else "unique"), {"KIND": 1, "SHARED": sh}, {"ops": "a[i] = a[j]", "shared": sh}))
+    # the value model itself, validated against libstdc++'s std::vector through the same driver and translator
+    for op in range(12):
+        qs.append(ba_query("model-vs-std-vector:op%d" % op, {"KIND": 0, "STEPS": 1, "FIRST": op, "PRE": 1}, {"steps": 1, "op": BA_OPS[op], "subject": "std::vector", "pre_state": "a(n0,v0), b(n1,v1), c = a"},
+                           stl=True, timeout=1200, cost=40))
+    qs.append(ba_query("byte_array:layout-canary", {"KIND": 4}, {"purpose": "field offsets used by the inductive-step harness"}))
+    # sharing patterns up to renaming of buffers: each variable has no buffer (0) or one of the buffers 1..3
+    pats = sorted(set(canon_pat(a, b, c) for a in range(4) for b in range(4) for c in range(4)))
+    for pat in pats:
+        for op in range(12):
+            qs.append(ba_query("byte_array:step:pat%03d:op%d" % (pat, op), {"KIND": 3, "PAT": pat, "OP": op},
+                               {"sharing_pattern": "%03d" % pat, "op": BA_OPS[op], "max_size": 4}, timeout=1200, cost=40))
+    return qs
